@@ -25,6 +25,21 @@ CHECKS = {
  'C06': ('exploration', 'metamorphic monitor: filtered resolution == resolution of truncated history, incl. REST handler slice',
          'For generated histories every cut time (at, between, before, after operations) and every version id is resolved twice on the real processor - with the option and over the truncated store - and the complete resolution models including operation lists must agree; unknown ids / too-early times must fail; a slice goes through the REST resolve handler.',
          'The truncated history is cut in the harness own (time, number) order.', 'DESIGN.md 5/C06'),
+ 'C07': ('exploration', 'differential runtime monitor against two independent JCS references (Go value-tree serializer, Python repr-based), in crash-isolated workers',
+         'Exhaustive key pairs/triples over 30 tricky names, all boundary scalars, nested and random trees, each in 7 spellings, plus doubles by random bit pattern; every output of the real canonicalizer is compared with the Go reference, re-checked by the Python reference, must be a fixed point and parse back to the value; ten classes of malformed input must be rejected.',
+         'References are trusted after their RFC 8785 Appendix B self-test; invalid UTF-8 and lenient number spellings are outside the statement.', 'DESIGN.md 5/C07, D.3'),
+ 'C08': ('exploration', 're-serialization metamorphic monitor + exact acceptance predicate for multihashes + exhaustive single-edit mutation of long-form DIDs through the real DocumentHandler',
+         'Client-built requests over all key types and both hash algorithms: suffix, hash checks and resolution must be invariant under re-serialization; commitment/reveal relations checked against harness/ref; IsValidModelMultihash must accept exactly H_alg(JCS(model)); every single-character / single-member alteration and non-canonical re-encoding of a long-form DID must be rejected.',
+         'Alterations are the classes the quantifier names; a top-level "type" member in the initial state is observed, not judged.', 'DESIGN.md 5/C08'),
+ 'C09': ('exploration', 'constructive tamper enumeration + structured-random fuzz of the JWS verifier through the verif-tagged hook, in crash-isolated workers',
+         'Genuine JWS built independently and by the library for all five key types; every byte of header, payload and signature altered, every structural signature damage, every foreign key, malformed JWKs and headers, and structured-random compact strings: verification must accept exactly the genuine ones and never panic.',
+         'Go crypto/btcec trusted; ECDSA twin counted, not judged; header edits that do not change the header value are not alterations.', 'DESIGN.md 5/C09'),
+ 'C10': ('exploration', 'independent acceptance predicate over raw JSON (accept => rules), boundary x configuration sweeps with converse, garbage fuzz of all parser entry points in workers',
+         'Every member of valid requests (and of re-signed payloads/headers) mutated; whenever the real parser/handler accepts, an independent predicate must hold; each limit checked exactly at and one past its boundary under 9 configurations that vary one other parameter; arbitrary and damaged bytes into six entry points must never panic.',
+         'Well-formed multihash = decodable, consistent length, allowed code; converse asserted only for requests built valid except for one boundary.', 'DESIGN.md 5/C10, D.2'),
+ 'C11': ('exploration', 'round-trip runtime monitor: client builders -> real parser -> real processor vs reference model',
+         'Chains of client-built requests over five key types, both hash algorithms, generated documents/patches/anchor origins/windows/nonces: each must parse back to exactly the builder inputs and, anchored in window, resolve to the state the model predicts after every prefix.',
+         'Builder inputs (commitments, reveal values) are computed by harness/ref.', 'DESIGN.md 5/C11'),
  'C12': ('exploration', 'exhaustive key x successor pairing at intake; trace checker T3 + model on cyclic histories',
          'All pairings of revealed key and next commitment under both hash algorithms and four protocol algorithm lists (exhaustive), creates/recovers with equal commitments; commitment cycles of length 1-5 in every anchoring order with replays, under the online trace checker and step budget.',
          'Exhaustive only over the 4-key universe and cycle length <= 5.', 'DESIGN.md 5/C12'),
